@@ -289,7 +289,12 @@ impl<'a> WarpView<'a> {
         self.out_index.get(node_ix).map_or(&[], |range| {
             let start = range.start() as usize;
             let len = range.len() as usize;
-            self.out_edges.get(start..start + len).unwrap_or(&[])
+            // `start + len` comes straight from untrusted index rows: it overflows (debug
+            // panic / release wrap) for e.g. start = u64::MAX, len = 1.
+            start
+                .checked_add(len)
+                .and_then(|end| self.out_edges.get(start..end))
+                .unwrap_or(&[])
         })
     }
 
@@ -302,7 +307,12 @@ impl<'a> WarpView<'a> {
         self.node_atts_index.get(node_ix).map_or(&[], |range| {
             let start = range.start() as usize;
             let len = range.len() as usize;
-            self.node_atts.get(start..start + len).unwrap_or(&[])
+            // `start + len` comes straight from untrusted index rows: it overflows (debug
+            // panic / release wrap) for e.g. start = u64::MAX, len = 1.
+            start
+                .checked_add(len)
+                .and_then(|end| self.node_atts.get(start..end))
+                .unwrap_or(&[])
         })
     }
 
@@ -315,7 +325,12 @@ impl<'a> WarpView<'a> {
         self.edge_atts_index.get(edge_ix).map_or(&[], |range| {
             let start = range.start() as usize;
             let len = range.len() as usize;
-            self.edge_atts.get(start..start + len).unwrap_or(&[])
+            // `start + len` comes straight from untrusted index rows: it overflows (debug
+            // panic / release wrap) for e.g. start = u64::MAX, len = 1.
+            start
+                .checked_add(len)
+                .and_then(|end| self.edge_atts.get(start..end))
+                .unwrap_or(&[])
         })
     }
 
@@ -333,7 +348,7 @@ impl<'a> WarpView<'a> {
         let off = att.blob_off() as usize;
         let len = att.blob_len() as usize;
 
-        self.blobs.get(off..off + len)
+        off.checked_add(len).and_then(|end| self.blobs.get(off..end))
     }
 
     /// Returns the raw blob section.
